@@ -33,13 +33,14 @@ Qed.
 (* Statements: what the renderer model writes for a statement list (Model/StRender.v, compared with write_to_string token
    for token on every run) is a well-formed spelling of that list, so the parser model reads it back as exactly the list it
    was given -- assignments, calls with all parameter forms, IF / ELSIF / ELSE, FOR [BY], WHILE, REPEAT, EXIT, RETURN, nested
-   to any depth, expressions over all operators -- whatever the size.  [rstmt] excludes the recorded gap (a negative
-   integer constant is written '- 5') and empty loop / ELSIF bodies (written as an empty statement, which the spelled
-   lists do not cover); integer constants are below 2^128, the range of the syntax tree (printing in decimal and reading
+   to any depth, empty loop and ELSIF bodies (written as an empty statement), expressions over all operators -- whatever the
+   size.  [rstmt] excludes only the recorded gap (a negative integer constant is written '- 5') and the [LfVar] node no
+   accepted text has; integer constants are below 2^128, the range of the syntax tree (printing in decimal and reading
    back is proved in Proofs/DecProofs.v). *)
-Theorem C10_statements_render_is_spelling : forall l, l <> [] -> Forall StRenderProofs.rstmt l ->
-  StStmtProofs.wf_l token StInstance.tok_class StInstance.op_level (StRender.body_sp StRender.ss_of l) /\
-  StStmtProofs.erase_l token t_text StInstance.tok_num (StRender.body_sp StRender.ss_of l) = l.
+Theorem C10_statements_render_is_spelling : forall x l, Forall StRenderProofs.rstmt (x :: l) ->
+  StStmtProofs.wf_l token StInstance.tok_class StInstance.op_level true (StRender.list_sp StRender.ss_of x l) /\
+  StStmtProofs.erase_l token t_text StInstance.tok_num (StRender.list_sp StRender.ss_of x l) = x :: l /\
+  StStmtProofs.absorbs token (StRender.list_sp StRender.ss_of x l) = false.
 Proof. exact StRenderProofs.render_is_spelling. Qed.
 
 Theorem C10_statements_parse_render : forall name l, l <> [] -> Forall StRenderProofs.rstmt l ->
